@@ -43,15 +43,15 @@ def plan(tier, seed):
 def gen(rng, depth, pool, nd=False):
     r = rng.random()
     if depth <= 0 or r < 0.25:
-        if rng.random() < 0.25:
-            return ["num", rng.choice([0, 1, 2, 3, 5])]
+        if rng.random() < 0.3:
+            return ["num", rng.choice([0, 0, 1, 2, 3, 5, -1, -2])]
         return ["var", rng.choice(VARS)]
     if pool and r < 0.33:
         return rng.choice(pool)       # repeated subterm
     if r < 0.55:
         e = ["+"] + [gen(rng, depth - 1, pool, nd) for _ in range(rng.choice([2, 2, 3, 4]))]
     elif r < 0.75:
-        e = ["*"] + [gen(rng, depth - 1, pool, nd) for _ in range(rng.choice([2, 2, 3]))]
+        e = ["*"] + [gen(rng, depth - 1, pool, nd) for _ in range(rng.choice([2, 2, 3, 4, 5]))]
     elif r < 0.88:
         kws = rng.sample(["k", "m"], rng.choice([0, 0, 1, 2]))
         e = ["call", rng.choice(FUNCS), [gen(rng, depth - 1, pool, nd) for _ in range(rng.choice([1, 2, 3]))],
